@@ -381,6 +381,19 @@ func executePlan(prop, tier string, seed uint64, plan *Plan, nproc int, t0 time.
 			fmt.Printf("    first %s: %s\n", k, agg.otherFirst[k])
 		}
 	}
+	planned := 0
+	for _, ph := range plan.Phases {
+		for _, g := range ph.Groups {
+			for _, j := range g.Jobs {
+				if j.Params["enum"] != 1 && g.Expect == "" {
+					planned += j.Count
+				}
+			}
+		}
+	}
+	if planned > 0 && nviol == 0 && agg.runs < planned-planned/50 {
+		fmt.Printf("  WARNING: only %d of the %d planned random runs were completed (workers that could not unwind a run are retired; see DESIGN 12.2)\n", agg.runs, planned)
+	}
 	fmt.Printf("  %d simulated runs, %d events, %.0f s of virtual time, %d distinct non-trivial interleaving/fault fingerprints, %.1fs wall\n",
 		agg.runs, agg.steps, float64(agg.vtimeMs)/1000, len(agg.fps), time.Since(t0).Seconds())
 	if exit == 0 {
